@@ -35,6 +35,9 @@ func main() {
 	r := lib.Start(os.Getenv("VERIF_ID"), "model_checking")
 	r.ID = *prop
 	plz := filepath.Join(lib.VerifRoot, ".work", "bin", "plz")
+	if p := os.Getenv("VERIF_PLZ"); p != "" {
+		plz = p // the driver says which binary it built from the repository under test
+	}
 	root := filepath.Join(lib.VerifRoot, ".work", "hist", *prop)
 	defer os.RemoveAll(root)
 
